@@ -32,6 +32,7 @@ class Session:
         self.fired = []
         self.ev = []
         self.nd = 0
+        self.dfs = {}
         self.nested = []
 
     def _cb(self, d):
@@ -39,7 +40,10 @@ class Session:
             self.fired.append([d, int(reply.transaction_id) if self.variant == "dict" else int(reply.unit_id)])
 
         def err(f):
-            if f.check(ConnectionException):
+            from twisted.internet.defer import CancelledError
+            if f.check(CancelledError):
+                self.fired.append([d, 1004])
+            elif f.check(ConnectionException):
                 self.fired.append([d, 1001 if "not connected" in str(f.value) else 1000])
             else:
                 self.fired.append([d, 1002])
@@ -60,6 +64,7 @@ class Session:
 
         def go():
             df = self.p.execute(ReadHoldingRegistersRequest(addr, 1, unit=uid))
+            self.dfs[d] = df
             ok, err = self._cb(d)
             if retry_in_errback:
                 # application retry logic: when the request fails, issue it again from inside the errback
@@ -88,6 +93,10 @@ class Session:
                 if pc:
                     self.p.dataReceived(pc)
         self.ev.append({"op": "reply", "tid": tid, "uid": uid, "fired": self._guard(go), "pieces": [len(x) for x in pieces]})
+
+    def cancel(self, d):
+        """the application gives up on request d (Deferred.cancel())"""
+        self.ev.append({"op": "cancel", "d": d, "fired": self._guard(lambda: self.dfs[d].cancel())})
 
     def raw(self, tid, uid, piece):
         """a fragment of a frame with transaction id `tid` arrives (recorded as a reply event of that id: for an id nobody waits for,
@@ -149,6 +158,7 @@ def history(tid, variant, rng, tier):
     if variant == "dict" and rng.random() < 0.4:
         s.wrap(rng.choice([65530, 65533, 65534, 65535]))
     lost = False
+    cancelled_d = set()
     steps = rng.randint(n, n + 8)
     issued = 0
     for _ in range(steps):
@@ -196,6 +206,11 @@ def history(tid, variant, rng, tier):
             else:
                 head_uid = out[min(out)][1] if out else 1
                 s.reply(0, 9 if head_uid != 9 else 8)   # a reply from a unit nobody asked
+        elif c < 0.89 and out and not lost and len(cancelled_d) < 2:
+            d = rng.choice([x for x in sorted(out)])
+            if d not in cancelled_d and d in s.dfs:
+                cancelled_d.add(d)
+                s.cancel(d)              # its reply still arrives later (the entry stays in `out`)
         elif c < 0.9 and variant == "dict" and out and not lost:
             # the counter wraps onto an id that is still outstanding (stands for 65535 completed requests in between)
             t0 = rng.choice([v[0] for v in out.values()])
